@@ -2,6 +2,9 @@
 import itertools
 
 BRANCH_KINDS = ['c3', 'c1', 'seq', 'blk', 'fblk', 'nest', 'dw', 'c5', 'c3nb', 'id']
+# user blocks with an internal fork (one layer's output consumed twice inside the branch), see net2d: the fork node is the last / the first
+# operand of a residual sum, the last / the first member of a concat, or sits one nesting level down
+FORK_KINDS = ['frkl', 'frkf', 'frkcat', 'frkcatf', 'nfrk']
 
 
 def block(branches, **kw):
@@ -55,6 +58,45 @@ def gen(tier):
                 out.append({'cin': 3, 'size': 6, 'stages': [pre, block(br)], 'head': 'flatlin'})
         for a, b in itertools.product(itertools.combinations(kinds[:6], 2), repeat=2):
             out.append({'cin': 3, 'size': 6, 'stages': [pre, block(a), block(b, twice=True)], 'head': 'gaplin'})
+    return out
+
+
+def gen_fork(tier):
+    """-> programs whose choice blocks contain branches with an INTERNAL FORK (a separate list: gen() is shared with other checks).
+    Every fork kind meets every other branch kind in a two-branch block (so it is the only loser and the only winner), at both positions;
+    blocks of fork kinds only; blocks used twice; two / three blocks; a width-changing block; a block first in the network"""
+    out = []
+    pre = {'op': 'conv', 'cout': 4}
+    for i, f in enumerate(FORK_KINDS):
+        for j, k in enumerate(BRANCH_KINDS):
+            br = (f, k) if (i + j) % 2 == 0 else (k, f)
+            out.append({'cin': 3, 'size': 6, 'stages': [pre, block(br)], 'head': 'flatlin' if j % 2 else 'gaplin'})
+    for br in itertools.combinations(FORK_KINDS, 2):
+        out.append({'cin': 3, 'size': 6, 'stages': [pre, block(br)], 'head': 'flatlin'})
+    out.append({'cin': 3, 'size': 6, 'stages': [pre, block(FORK_KINDS)], 'head': 'gaplin'})
+    out.append({'cin': 3, 'size': 6, 'stages': [pre, block(['id'] + FORK_KINDS[::-1] + ['seq'])], 'head': 'flatlin'})
+    # blocks used twice (the loser's fork must be gone at BOTH call sites), with and without a fixed layer after them
+    out.append({'cin': 3, 'size': 6, 'stages': [pre, block(['frkl', 'c3', 'id'], twice=True)], 'head': 'gaplin'})
+    out.append({'cin': 3, 'size': 6, 'stages': [pre, block(['c1', 'frkl'], twice=True)], 'head': 'flatlin'})
+    out.append({'cin': 3, 'size': 6, 'stages': [pre, block(['frkcat', 'frkf', 'seq'], twice=True), {'op': 'conv', 'cout': 3}], 'head': 'flatlin'})
+    out.append({'cin': 3, 'size': 6, 'stages': [pre, block(['blk', 'nfrk', 'frkcatf'], twice=True)], 'head': 'gaplin'})
+    # two and three blocks, fork branches in one or in all of them
+    two = [(['frkl', 'c1'], ['frkf', 'frkcat', 'id']), (['c3', 'seq', 'id'], ['nfrk', 'c5']), (['frkcatf', 'frkl', 'fblk'], ['c3', 'c1'])]
+    for a, b in two:
+        out.append({'cin': 3, 'size': 6, 'stages': [pre, block(a), {'op': 'pool'}, block(b)], 'head': 'flatlin'})
+    out.append({'cin': 3, 'size': 6, 'stages': [pre, block(['frkl', 'id'], twice=True), block(['c1', 'frkcat'])], 'head': 'gaplin'})
+    out.append({'cin': 3, 'size': 6, 'stages': [pre, block(['frkl', 'id']), block(['c1', 'frkf']), {'op': 'pool'}, block(['frkcat', 'blk', 'c3'])], 'head': 'gaplin'})
+    # width-changing blocks, a block first in the network
+    out.append({'cin': 3, 'size': 6, 'stages': [block(['frkl', 'c1', 'frkcat'], cout=5), {'op': 'pool'}], 'head': 'flatlin'})
+    out.append({'cin': 3, 'size': 6, 'stages': [pre, block(['c5', 'frkf', 'nfrk'], cout=2), {'op': 'conv', 'cout': 3}], 'head': 'linlin'})
+    if tier == 'thorough':
+        # every fork kind with every PAIR of the other kinds; a twice-used fork block after every pair of plain kinds
+        for f in FORK_KINDS:
+            for a, b in itertools.combinations(BRANCH_KINDS, 2):
+                out.append({'cin': 3, 'size': 6, 'stages': [pre, block((a, f, b))], 'head': 'flatlin'})
+        for f in FORK_KINDS:
+            for a in itertools.combinations(BRANCH_KINDS[:6], 2):
+                out.append({'cin': 3, 'size': 6, 'stages': [pre, block(a), block((f, a[0]), twice=True)], 'head': 'gaplin'})
     return out
 
 
